@@ -112,47 +112,55 @@ func parseListMap(p *parser, bp oper.BP, t *token.Token) ast.Expr {
 		rg := pos.Range(t, rb)
 		return ast.Map([]ast.Pair{}, rg)
 	}
-	return p.any("list or map", parseList(t), parseMap(t))
+	return p.any("list or map", parseListOrMap(t))
 }
 
-func parseList(t *token.Token) func(p *parser) ast.Expr {
+// parseListOrMap parses the first element once and lets the token that follows
+// it (`:` or not) decide between a map and a list. Trying a whole list first
+// and re-parsing the same text as a map re-did the work at every nesting level:
+// a nest in key position such as [[[1:1]:1]:1] took time exponential in its depth.
+func parseListOrMap(t *token.Token) func(p *parser) ast.Expr {
 	return func(p *parser) ast.Expr {
-		elems := make([]ast.Expr, 0)
-		for {
-			if p.peek().Kind == token.RIGHT_BRACKET {
-				break
-			}
-			el := p.expr(0)
-			elems = append(elems, el)
-			if p.tryEat(token.COMMA) == nil {
-				break
-			}
+		if p.peek().Kind == token.RIGHT_BRACKET {
+			rb := p.eat()
+			return ast.List(make([]ast.Expr, 0), pos.Range(t, rb))
 		}
-		rb := p.mustEat(token.RIGHT_BRACKET)
-		rg := pos.Range(t, rb)
-		return ast.List(elems, rg)
+		first := p.expr(0)
+		if p.tryEat(token.COLON) != nil {
+			return parseMapRest(p, t, first)
+		}
+		return parseListRest(p, t, first)
 	}
 }
 
-func parseMap(t *token.Token) func(p *parser) ast.Expr {
-	return func(p *parser) ast.Expr {
-		pairs := make([]ast.Pair, 0)
-		for {
-			if p.peek().Kind == token.RIGHT_BRACKET {
-				break
-			}
-			k := p.expr(0)
-			p.mustEat(token.COLON)
-			v := p.expr(0)
-			pairs = append(pairs, ast.Pair{Key: k, Val: v})
-			if p.tryEat(token.COMMA) == nil {
-				break
-			}
+func parseListRest(p *parser, t *token.Token, first ast.Expr) ast.Expr {
+	elems := []ast.Expr{first}
+	for p.tryEat(token.COMMA) != nil {
+		if p.peek().Kind == token.RIGHT_BRACKET {
+			break
 		}
-		rb := p.mustEat(token.RIGHT_BRACKET)
-		rg := pos.Range(t, rb)
-		return ast.Map(pairs, rg)
+		elems = append(elems, p.expr(0))
 	}
+	rb := p.mustEat(token.RIGHT_BRACKET)
+	rg := pos.Range(t, rb)
+	return ast.List(elems, rg)
+}
+
+// the first key and its `:` have been consumed
+func parseMapRest(p *parser, t *token.Token, k ast.Expr) ast.Expr {
+	pairs := []ast.Pair{{Key: k, Val: p.expr(0)}}
+	for p.tryEat(token.COMMA) != nil {
+		if p.peek().Kind == token.RIGHT_BRACKET {
+			break
+		}
+		k := p.expr(0)
+		p.mustEat(token.COLON)
+		v := p.expr(0)
+		pairs = append(pairs, ast.Pair{Key: k, Val: v})
+	}
+	rb := p.mustEat(token.RIGHT_BRACKET)
+	rg := pos.Range(t, rb)
+	return ast.Map(pairs, rg)
 }
 
 func parseObj(p *parser, bp oper.BP, t *token.Token) ast.Expr {
